@@ -10,6 +10,43 @@ sys.path.insert(0, ROOT)
 from vfw.core import Report  # noqa
 
 
+def _descendants(pid):
+    kids = {}
+    for d in os.listdir("/proc"):
+        if d.isdigit():
+            try:
+                with open(f"/proc/{d}/stat") as f:
+                    ppid = int(f.read().rsplit(")", 1)[1].split()[1])
+                kids.setdefault(ppid, []).append(int(d))
+            except (OSError, ValueError, IndexError):
+                pass
+    out, todo = [], [pid]
+    while todo:
+        for k in kids.get(todo.pop(), []):
+            out.append(k)
+            todo.append(k)
+    return out
+
+
+def _watchdog(pid, tier):
+    """A check that hangs (a dead pool worker, a solver or GLPK call that never returns) must end as a checker error (exit 3), not
+    run for ever: after VERIF_WATCHDOG_S seconds (default 1 h quick / 8 h thorough, far above any observed run) the check kills its
+    worker processes and exits 3.  It never produces a verdict."""
+    import signal
+    limit = int(os.environ.get("VERIF_WATCHDOG_S", "3600" if tier == "quick" else "28800"))
+
+    def fire(signum, frame):
+        print(f"CHECKER-ERROR [{pid}] watchdog: no result after {limit} s - the check is stopped (exit 3, no verdict)", flush=True)
+        for k in _descendants(os.getpid()):
+            try:
+                os.kill(k, signal.SIGKILL)
+            except OSError:
+                pass
+        os._exit(3)
+    signal.signal(signal.SIGALRM, fire)
+    signal.alarm(limit)
+
+
 def main():
     ap = argparse.ArgumentParser()
     ap.add_argument("pid")
@@ -36,6 +73,7 @@ def main():
         print("replay: the recorded input no longer fails")
         return 0
     rep = Report(a.pid, a.tier, seed, mod.LEVEL)
+    _watchdog(a.pid, a.tier)
     try:
         mod.run(rep)
     except Exception:  # noqa
